@@ -65,6 +65,57 @@ def go_names(docview, names):
     G.set_unicode_table(json.loads(out.splitlines()[0])["names"])
 
 
+SAMPLE_MAGEFILE = """//go:build mage
+
+package main
+
+import (
+	"context"
+	"time"
+
+	"github.com/magefile/mage/mg"
+)
+
+type NS mg.Namespace
+
+var Default = Build
+
+var Aliases = map[string]interface{}{"b": Build}
+
+// Build has one parameter of every kind.
+func Build(ctx context.Context, s string, n int, b bool, d time.Duration) error { return nil }
+
+func (*NS) Deploy() {}
+"""
+
+
+def generated_identifiers(mage, docview):
+    """every identifier the generated main file of THIS tree declares (harness/docview parses one kept
+    mage_output_file.go with go/ast): [(name, package|import|local)]"""
+    d = mage.project({"magefile.go": SAMPLE_MAGEFILE}, name="sample_generated", probe=False)
+    r = mage.run(d, ["-keep", "-l"])
+    path = os.path.join(d, "mage_output_file.go")
+    if r["rc"] != 0 or not os.path.exists(path):
+        raise BuildError("cannot obtain a generated main file: " + r["err"][-500:])
+    rc, out, err = sh([docview], input=(json.dumps({"idents": path}) + "\n").encode(), timeout=120)
+    a = json.loads(out.splitlines()[0]) if rc == 0 and out.strip() else {"err": err}
+    if a.get("err"):
+        raise BuildError("docview (idents) failed: " + str(a.get("err"))[-500:])
+    return [(i["name"], i["where"]) for i in a["idents"]]
+
+
+def make_symlinks(c):
+    """turn some magefiles of the project into symbolic links (the go tool follows them)"""
+    files = sorted(f for f in os.listdir(c["dir"]) if f.startswith("mf_"))
+    variant = c["stream"].split(":")[1]
+    pick = {"first": files[:1], "last": files[-1:], "all": files}[variant]
+    os.makedirs(os.path.join(c["dir"], "linked"), exist_ok=True)
+    for f in pick:
+        real = os.path.join(c["dir"], "linked", f + ".src")
+        os.rename(os.path.join(c["dir"], f), real)
+        os.symlink(real if variant == "last" else os.path.join("linked", f + ".src"), os.path.join(c["dir"], f))
+
+
 def observe(mage, case):
     """everything that is run for one package"""
     d = case["dir"]
@@ -316,6 +367,21 @@ def run(ctx):
             cases.append({"stream": "mg-import:" + v, "pkg": G.gen_mg_imports(rng, v)})
         for v in G.MAGIC_VARIANTS * k:
             cases.append({"stream": "magic-lookalike:" + v, "pkg": G.gen_magic_lookalike(rng, v)})
+        # ---- names against everything the generated main of this tree declares, derived from the file itself
+        gen_ids = generated_identifiers(mage, docview)
+        ctx.coverage["generated_main_identifiers"] = len(gen_ids)
+        exported_ids = sorted(set(n for n, w in gen_ids if "A" <= n[:1] <= "Z"))
+        ctx.coverage["generated_main_exported_identifiers"] = exported_ids
+        for pkg in G.pack_names(rng, exported_ids + G.ENGLISH_NAMES, per=10):
+            cases.append({"stream": "names", "pkg": pkg})
+        # the lower-case locals of the generated main as package-level identifiers of the magefile (the local
+        # names of its imports excepted: a file cannot import under a name the package declares)
+        lows = sorted(set(n for n, w in gen_ids if w != "import" and not ("A" <= n[:1] <= "Z")
+                          and n not in G.PREDECLARED and n not in G.GO_KEYWORDS and n not in ("main", "init")))
+        for i in range(0, len(lows), 45):
+            cases.append({"stream": "names", "pkg": G.gen_named(rng, ["Build", "Test"], [], helper_names=lows[i:i + 45])})
+        for v in ["first", "last", "all"] * k:
+            cases.append({"stream": "symlink:" + v, "pkg": G.gen_package(rng, nfiles=rng.choice([2, 3]), unicode=False, cli=False)})
         for c in cases[:6]:
             c["compile"] = True
         for cls, n in (("import-name-clash", 3), ("generic-namespace-type", 1), ("lookalike", 5)):
@@ -336,6 +402,8 @@ def run(ctx):
             files["magefiles/gen_tool.go"] = "//go:build ignore\n\npackage main\n\n// Generate belongs to a go:generate tool.\nfunc Generate(n int) error { return nil }\n\nfunc main() {}\n"
         c["dir"] = mage.project(files, name=pname)
         c["src"] = os.path.join(c["dir"], "magefiles") if c["stream"] == "magefiles-dir" else c["dir"]
+        if c["stream"].startswith("symlink:"):
+            make_symlinks(c)
         c["files"] = sorted(f for f in os.listdir(c["src"]) if f.startswith("mf_"))
         c["runs"] = plan_runs(rng, pkg)
         c["docview"] = docview
